@@ -35,6 +35,17 @@ def select_all(logits):
     return (np.arange(len(logits)),)
 
 
+def select_all_desc(logits):
+    """keeps everything, listed from the last class to the first (selectors need not list symbols in ascending order:
+    a top-n selector lists them best-first)"""
+    return (np.arange(len(logits))[::-1].copy(),)
+
+
+def selector_for(sel):
+    from pero_ocr.decoding.decoders import select_relevant_logits
+    return {"all": select_all, "all_desc": select_all_desc}.get(sel, select_relevant_logits)
+
+
 def to_tuple(s):
     return tuple(LETTERS.index(ch) for ch in s)
 
@@ -49,7 +60,7 @@ def run_case(ctx, fam, M, k, sel, dtype, tag="rand"):
     logits = np.asarray(M, dtype=np.float32 if dtype == "f32" else np.float64)
     L64 = logits.astype(np.float64)
     dec = CTCPrefixLogRawNumpyDecoder(letters_for(C), k,
-                                      relevant_logits_selector=select_all if sel == "all" else select_relevant_logits)
+                                      relevant_logits_selector=selector_for(sel))
     desc = lambda: "family=%s k=%d selector=%s dtype=%s matrix=\n%s" % (fam, k, sel, dtype, render_matrix(logits))
     with np.errstate(all="ignore"):
         boh = ctx.must("decoder_raises", dec, logits.copy())
@@ -59,7 +70,7 @@ def run_case(ctx, fam, M, k, sel, dtype, tag="rand"):
     key = (C, k, sel)
     if key not in _LONG_LIVED:
         _LONG_LIVED[key] = CTCPrefixLogRawNumpyDecoder(letters_for(C), k,
-                                                        relevant_logits_selector=select_all if sel == "all" else select_relevant_logits)
+                                                        relevant_logits_selector=selector_for(sel))
     with np.errstate(all="ignore"):
         boh2 = ctx.must("decoder_raises", _LONG_LIVED[key], logits.copy())
     hyps2 = [(h.transcript, float(h.vis_sc)) for h in boh2]
@@ -85,7 +96,7 @@ def run_case(ctx, fam, M, k, sel, dtype, tag="rand"):
         ctx.check(v <= fwd + tol(fwd), "score_exceeds_ctc_probability",
                   lambda: "transcript %r vis_sc=%r true CTC log-prob=%r; " % (t, v, fwd) + desc())
 
-    ref = ctc.ref_prefix_beam_search(L64, k, None if sel == "all" else -10.0)
+    ref = ctc.ref_prefix_beam_search(L64, k, None if sel in ("all", "all_desc") else -10.0)
     got = {to_tuple(t): v for t, v in hyps}
     finite_got = {t: v for t, v in got.items() if v != ctc.NEG}
     if not ref.ambiguous:
@@ -96,7 +107,7 @@ def run_case(ctx, fam, M, k, sel, dtype, tag="rand"):
                       lambda: "transcript %r got %r reference %r; " % (p, finite_got[p], v) + desc())
     else:
         ctx.event("ambiguous_cut")
-    if sel == "all" and not ref.dropped:
+    if sel in ("all", "all_desc") and not ref.dropped:
         # nothing pruned: complete and exact
         ctx.event("unpruned")
         if truth is not None:
@@ -122,7 +133,7 @@ def run_case(ctx, fam, M, k, sel, dtype, tag="rand"):
 
 def strat_case():
     from hypothesis import strategies as st
-    return st.tuples(logprob_matrix(big_alphabet=True, long_lines=True), st.sampled_from([1, 2, 3, 5, 10, 10000]), st.sampled_from(["default", "all"]),
+    return st.tuples(logprob_matrix(big_alphabet=True, long_lines=True), st.sampled_from([1, 2, 3, 5, 10, 10000]), st.sampled_from(["default", "default", "all", "all", "all_desc"]),
                      st.sampled_from(["f64", "f64", "f32"]))
 
 
